@@ -73,7 +73,7 @@ func (f *Formatter) formatAclDeclaration(decl *ast.AclDeclaration) *Declaration 
 	return &Declaration{
 		Type:   Acl,
 		Name:   decl.Name.Value,
-		Buffer: buf.String(),
+		Buffer: trimMultipleLineFeeds(buf.String()),
 	}
 }
 
@@ -93,7 +93,7 @@ func (f *Formatter) formatBackendDeclaration(decl *ast.BackendDeclaration) *Decl
 	return &Declaration{
 		Type:   Backend,
 		Name:   decl.Name.Value,
-		Buffer: buf.String(),
+		Buffer: trimMultipleLineFeeds(buf.String()),
 	}
 }
 
@@ -238,7 +238,7 @@ func (f *Formatter) formatDirectorDeclaration(decl *ast.DirectorDeclaration) *De
 	return &Declaration{
 		Type:   Director,
 		Name:   decl.Name.Value,
-		Buffer: buf.String(),
+		Buffer: trimMultipleLineFeeds(buf.String()),
 	}
 }
 
@@ -262,7 +262,7 @@ func (f *Formatter) formatTableDeclaration(decl *ast.TableDeclaration) *Declarat
 	return &Declaration{
 		Type:   Table,
 		Name:   decl.Name.Value,
-		Buffer: buf.String(),
+		Buffer: trimMultipleLineFeeds(buf.String()),
 	}
 }
 
